@@ -165,6 +165,7 @@ psgstrf_thread_init(SuperMatrix *A, SuperMatrix *L, SuperMatrix *U,
     /* Prepare arguments to all threads. */
     psgstrf_threadarg = (psgstrf_threadarg_t *) 
         SUPERLU_MALLOC(nprocs * sizeof(psgstrf_threadarg_t));
+    if ( !psgstrf_threadarg ) SUPERLU_ABORT("Malloc fails for the thread arguments.");
     for (i = 0; i < nprocs; ++i) {
         psgstrf_threadarg[i].pnum = i;
         psgstrf_threadarg[i].info = 0;
